@@ -634,6 +634,23 @@ def utility_counting(rep, rule, mod):
             probs.append('counts %s' % [nt(e.r)[-70:] for e in inc])
     if not n:
         probs.append('the listing is never walked')
+    # every listed registration is visited: no exit from inside the walk ...
+    for lp in ast.walk(pop):
+        if isinstance(lp, (ast.For, ast.While)) and any(
+                isinstance(x, (ast.Break, ast.Return)) for x in ast.walk(lp)):
+            probs.append('the walk over the listing can end early (break/return inside it)')
+    # ... and a counter object created for a listing that already has entries (the
+    # memo is rebuilt after re-initialisation, unpickling) starts from their counts
+    ini_ = None
+    for k, v in um.items():
+        if k == '__init__':
+            ini_ = v
+    if ini_ is not None:
+        for ps in normal(summaries(ini_)):
+            if not any(e.kind == 'call' and nt(e.r.func).endswith('__populate_cache')
+                       for e in ps.events):
+                probs.append('_UtilityRegistrations.__init__ does not populate the counts '
+                             'on every path')
     rep.check(rule, '_UtilityRegistrations.__populate_cache', not probs,
               'the count is rebuilt with one increment per listed registration '
               '(provided = key[0], component = value[0]), unconditionally'
